@@ -110,6 +110,11 @@ def _compound_case(keys, dens_kind, wl_kind):
         sld_only = nsf.neutron_sld(f, **kw)
         E.eq('neutron_sld.re', sld_only[0], result[0][0])
         E.eq('neutron_sld.im', sld_only[1], result[0][1])
+        # a Formula object that carries its own density: the density keyword given in the call decides
+        own = formulas.formula(f, density=E.real('rho_own', lo=0, lo_open=True, hi=25))
+        sld_own = nsf.neutron_sld(own, **kw)
+        E.eq('formula_object_with_own_density.re', sld_own[0], result[0][0])
+        E.eq('formula_object_with_own_density.im', sld_own[1], result[0][1])
     return h
 
 
